@@ -1,6 +1,8 @@
 """Per-property scripts: what the driver does with each generated case
 (DESIGN 8).  A script only calls the library and logs; every judgement is made
 by the trace specification."""
+import hashlib
+import os
 import random
 
 import names
@@ -78,26 +80,27 @@ def mk_trace(pid, cid, k, case, naming, events, extra=None):
     return {'id': tid, 'ev': events}, meta
 
 
-def namings_for(pid, tier, seed):
+def namings_for(pid, tier, seed, cid):
+    """The all-plain naming for every case; each other admissible class names ALL features of a
+    case, and is applied to one case in `stride` (so that a finding can be tied to one class)."""
     spec = PROPS[pid]
-    classes = spec.get('name_classes')
-    out = [names.Naming(('plain',), 0, seed)]
-    if classes:
-        nk = 2 if tier == 'quick' else 6
-        for k in range(1, nk + 1):
-            out.append(names.Naming(tuple(classes), k, seed))
+    classes = spec.get('name_classes') or ()
+    out = [(0, names.Naming(('plain',), 0, seed))]
+    if classes and spec.get('naming_matters', True):
+        stride = spec.get('name_stride', {}).get(tier, 4 if tier == 'quick' else 2)
+        h = int(hashlib.md5(cid.encode()).hexdigest(), 16)
+        for k, cls in enumerate(classes, 1):
+            if (h + k) % stride == 0:
+                out.append((k, names.Naming((cls,), k, seed)))
     return out
 
 
 def run_case(pid, cid, case, tier, seed):
     spec = PROPS[pid]
     out = []
-    for k, nm in enumerate(namings_for(pid, tier, seed)):
-        if k > 0 and not spec.get('naming_matters', True):
-            break
-        nm2 = names.Naming(nm.classes, nm.k, nm.seed)   # fresh table per case
-        events, extra = spec['script'](case, nm2, tier, seed)
-        out.append(mk_trace(pid, cid, k, case, nm2, events, extra))
+    for k, nm in namings_for(pid, tier, seed, cid):
+        events, extra = spec['script'](case, nm, tier, seed)
+        out.append(mk_trace(pid, cid, k, case, nm, events, extra))
     return out
 
 
@@ -316,3 +319,56 @@ def script_c20(case, naming, tier, seed):
     events = [ev, {'a': 'Other', 'args': {'model': case['other']}, 'out': 'value'},
               observe.compare(b.model, other, naming, case['how'], case['edit'])]
     return events, {'key': [case['how'], case['edit']], 'nontrivial': True}
+
+
+# ---------------------------------------------------------------------------
+# Round trips (C01, C05-C08)
+import formats  # noqa: E402
+
+
+def roundtrip_script(fmt):
+    def script(case, naming, tier, seed):
+        b, ev = load_event(case, naming)
+        events = [ev]
+        model = b.model
+        cycles = 3 if tier == 'quick' else 4
+        for k in range(cycles):
+            wev, path, _ = formats.write_event(fmt, model, naming)
+            events.append(wev)
+            if wev['out'] != 'value':
+                break
+            if fmt == 'json':
+                events.append(formats.parse_json_event(path, naming))
+            rev, model2 = formats.read_event(fmt, path, naming)
+            events.append(rev)
+            os.remove(path)
+            if rev['out'] != 'value' or model2 is None:
+                break
+            model = model2
+        return events, None
+    return script
+
+
+ALL_NAME_CLASSES = ('space', 'punct', 'uvlkw', 'opword', 'digit0', 'under0', 'nonascii', 'quote', 'dot', 'apos')
+
+
+def fam_names(fmt):
+    import families
+    return [k for k in families.FAMILIES if k.startswith(fmt + '-')]
+
+
+prop('C05', fam_names('json'), name_classes=ALL_NAME_CLASSES, naming_matters=True,
+     assumptions=['attribute values are JSON-representable: None, bool, int, float, str, list, string-keyed map'])(
+    roundtrip_script('json'))
+
+prop('C08', fam_names('glencoe'), name_classes=ALL_NAME_CLASSES, naming_matters=True,
+     assumptions=['constraints have distinct names (the format keys them by name)'])(roundtrip_script('glencoe'))
+prop('C07', fam_names('fide'), name_classes=ALL_NAME_CLASSES, naming_matters=True,
+     assumptions=['names are XML-representable: no control characters'])(roundtrip_script('fide'))
+prop('C06', fam_names('afm'), name_classes=('afmword',), naming_matters=True, name_stride={'quick': 1, 'thorough': 1},
+     assumptions=['names match the AFM WORD token; attribute names the LOWERCASE token; enumerated domain elements, '
+                  'default and null values are text tokens; range bounds are integers'])(roundtrip_script('afm'))
+UVL_NAME_CLASSES = ('space', 'punct', 'uvlkw', 'opword', 'digit0', 'under0', 'nonascii')
+prop('C01', fam_names('uvl'), name_classes=UVL_NAME_CLASSES, naming_matters=True,
+     assumptions=['names carry no double quote, dot or newline; strings no apostrophe; floats have a plain decimal repr'])(
+    roundtrip_script('uvl'))
